@@ -185,6 +185,8 @@ pub struct Case {
     pub nstate: usize,
     pub params: Vec<(f64, f64)>,
     pub times: Vec<(f64, f64)>,
+    /// speed requests made on the same estimator object before the alignment request (history only)
+    pub earlier_speeds: Vec<f64>,
 }
 
 /// End times in frames for `n` labels: known/unknown subsets, positive / zero / negative steps,
@@ -244,10 +246,14 @@ impl Prop for AlignLaw {
             .collect();
         let typical = nstate as f64 * t.log_uniform(0.3, 12.0);
         let times = gen_frame_times(t, nlabels, typical, 5.0e6);
-        Case { nstate, params, times }
+        let earlier_speeds = if t.chance(0.25) { (0..t.urange(1, 2)).map(|_| t.log_uniform(0.2, 5.0)).collect() } else { vec![] };
+        Case { nstate, params, times, earlier_speeds }
     }
     fn check(&self, c: &Case) -> Result<Report, Failure> {
         let est = DurationEstimator::new(c.params.iter().map(|(m, v)| MeanVari(*m, *v)).collect(), c.nstate);
+        for s in &c.earlier_speeds {
+            let _ = est.create(*s);
+        }
         let d = est.create_with_alignment(&c.times);
         let mut rep = Report::new();
         check_alignment_law(&c.params, c.nstate, &c.times, &d, &mut rep)?;
